@@ -240,8 +240,12 @@ def part_c(rep, hbin, tier, seed, cov):
     for m in re.finditer(r"^FAIL key=(\S+) what=(.*?) input=(.*)$", p.stdout, flags=re.M):
         key, what, inp = m.groups()
         n += 1
-        rep.violation(key, "%s :: %s" % (what[:600], inp[:600]),
-                      {"property": PID, "part": "round-trip", "key": key, "what": what, "input": inp}, True)
+        obj = {"property": PID, "part": "round-trip", "key": key, "what": what, "input": inp, "seed": seed, "tier": tier}
+        mctx = re.search(r"\((bare|legacy|segwitv0|tap)\)", what)
+        if key.startswith("rt:ms:") and mctx:
+            text = inp.split(" (from ")[0].split(" || ")[0]
+            obj["kind_line"] = "%s %s" % ({"bare": "ms-bare", "legacy": "ms-legacy", "segwitv0": "ms-segwit", "tap": "ms-tap"}[mctx.group(1)], text)
+        rep.violation(key, "%s :: %s" % (what[:600], inp[:600]), obj, True)
     total = sum(k["generated"] for k in kinds.values())
     return total, n
 
@@ -262,6 +266,40 @@ def replay_file(rep, hbin, tier, path):
                              "rule": "replay of one recorded input", "samples": [obj.get("replay_line")],
                              "checker_cmd": "verif-harness text cksub <replay>", "trusted_base": vlib.TRUSTED_BASE_COMMON})
         return True
+    if part == "expression-tree" and "input" in obj:
+        # re-observe the recorded string with the real parser and compare with the recorded model verdict
+        tmp = os.path.join(vlib.WORK, "c10-replay.txt")
+        os.makedirs(vlib.WORK, exist_ok=True)
+        open(tmp, "w").write(obj["input"] + "\n")
+        q = _run_engine(hbin, ["treeobs", "1", tier, tmp], tier)
+        for m in re.finditer(r"^TREEOBS (\[.*?\]) (.*)$", q.stdout, flags=re.M):
+            obs = json.loads(m.group(1))
+            want = obj.get("model") or obj.get("model_obs")
+            if obs[:1] in ([2], [3]) or (want is not None and obs[:len(want)] != want[:len(obs)]):
+                rep.violation("tree-replay", "expression::Tree::from_str on %r gives %s, the model %s" % (m.group(2)[:80], obs[:12], want), obj, True)
+        rep.coverage.update({"obligations": 1, "discharged": 1, "evaluations": 1, "distinct_nontrivial": 1,
+                             "rule": "replay of one recorded input", "samples": [obj["input"][:200]],
+                             "checker_cmd": "verif-harness text treeobs <replay>", "trusted_base": vlib.TRUSTED_BASE_COMMON})
+        return True
+    if part == "round-trip" and obj.get("kind_line"):
+        tmp = os.path.join(vlib.WORK, "c10-replay.txt")
+        os.makedirs(vlib.WORK, exist_ok=True)
+        open(tmp, "w").write(obj["kind_line"] + "\n")
+        q = _run_engine(hbin, ["rt", "1", tier, tmp], tier)
+        out = re.findall(r"^REPLAY kind=(\S+) (.*)$", q.stdout, flags=re.M)
+        for kind, res in out:
+            bad = ("panic" in res) or ("reparse-error" in res)
+            m = re.search(r"dump=(.*?) printed=(.*?) redump=(.*?) reprinted=(.*)$", res)
+            if m and (m.group(1) != m.group(3) or m.group(2) != m.group(4)):
+                bad = True
+            if bad:
+                rep.violation(obj.get("key", "rt:replay"), "round trip fails: %s" % res[:600], obj, True)
+        rep.coverage.update({"obligations": 1, "discharged": 1, "evaluations": 1, "distinct_nontrivial": 1,
+                             "rule": "replay of one recorded input", "samples": [obj["kind_line"][:200]],
+                             "checker_cmd": "verif-harness text rt <replay>", "trusted_base": vlib.TRUSTED_BASE_COMMON})
+        return True
+    # anything else (decoded scripts, descriptors, keys, policies): the generators are deterministic in the
+    # recorded seed, so the full check replays the input
     return False
 
 
@@ -270,6 +308,12 @@ def run(rep, tier, seed, replay):
     if replay:
         if replay_file(rep, hbin, tier, replay):
             return
+        try:
+            obj = json.load(open(replay))
+            seed = int(obj.get("seed", seed))
+            tier = obj.get("tier", tier)
+        except Exception:
+            pass
     ok, thms = vlib.proof_gates(rep, PID)
     cov = {}
     obligations, discharged = len(thms), (len(thms) if ok else 0)
